@@ -4,5 +4,5 @@ d=/verif/seeded/$1; prop=$2; tier=${3:-quick}
 cd /repo && git apply "$d/patch.diff" || { echo "patch does not apply"; exit 3; }
 cd /verif && ./check "$prop" "$tier" 2>&1 | grep -v "^loaded" | tail -${4:-6}
 rc=${PIPESTATUS[0]}
-git -C /repo checkout -- . 
+git -C /repo apply -R "$d/patch.diff" || { echo "WARNING: could not revert the seeded patch cleanly"; }
 exit $rc
